@@ -109,6 +109,7 @@ type HarnessFile struct {
 	ExpectBlock map[string]bool
 	ThoroughOnly map[string]bool
 	Overlays [][2]string
+	MustReach map[string][]string
 }
 
 var dirRe = regexp.MustCompile(`(?m)^//vx:(\w[\w-]*)\s+(.*)$`)
@@ -119,7 +120,7 @@ func parseHarness(path string) (*HarnessFile, error) {
 	if err != nil {
 		return nil, err
 	}
-	h := &HarnessFile{Path: path, Src: src, Params: map[string]map[string]int{}, ExpectBlock: map[string]bool{}, ThoroughOnly: map[string]bool{}}
+	h := &HarnessFile{Path: path, Src: src, Params: map[string]map[string]int{}, ExpectBlock: map[string]bool{}, ThoroughOnly: map[string]bool{}, MustReach: map[string][]string{}}
 	if m := pkgRe.FindSubmatch(src); m != nil {
 		h.PkgName = string(m[1])
 	}
@@ -164,6 +165,11 @@ func parseHarness(path string) (*HarnessFile, error) {
 				return nil, fmt.Errorf("%s: bad overlay %q", path, val)
 			}
 			h.Overlays = append(h.Overlays, [2]string{f[0], filepath.Join(filepath.Dir(path), f[1])})
+		case "must-reach": // //vx:must-reach <entry> label...  : an unreachable label is a VIOLATION (reachability property)
+			f := strings.Fields(val)
+			if len(f) > 1 {
+				h.MustReach[f[0]] = append(h.MustReach[f[0]], f[1:]...)
+			}
 		case "solver":
 			h.Solver = val
 		case "expect-block":
